@@ -1,6 +1,7 @@
 package main
 
 import (
+	"unicode"
 	"fmt"
 	"sort"
 	"strings"
@@ -300,6 +301,33 @@ type c09Set struct {
 	m         map[rsT]bool
 }
 
+// c09NaiveParse reads a scope string by the documented grammar.
+func c09NaiveParse(text string) *c09Set {
+	ps := &c09Set{m: map[rsT]bool{}}
+	for _, w := range strings.FieldsFunc(text, unicode.IsSpace) {
+		parts := strings.Split(w, ":")
+		if len(parts) != 3 {
+			ps.m[rsT{ResourceType: w}] = true
+			continue
+		}
+		for _, a := range strings.Split(parts[2], ",") {
+			ps.m[rsT{parts[0], parts[1], a}] = true
+		}
+	}
+	return ps
+}
+
+// c09AllClean: every member is either an opaque word or has three fields free of separators.
+func c09AllClean(s *c09Set) bool {
+	for r := range s.m {
+		opaque := r.Resource == "" && r.Action == "" && cleanField(r.ResourceType)
+		if !opaque && !(cleanField(r.ResourceType) && cleanField(r.Resource) && cleanField(r.Action)) {
+			return false
+		}
+	}
+	return true
+}
+
 func rsLess(a, b rsT) bool { return a.Compare(b) < 0 }
 
 func parseIterOut(s string) ([]rsT, bool) {
@@ -372,8 +400,16 @@ func (*c09) Oracle(c Case, impl []string) []Failure {
 		case "unlimited":
 			sets[t[2]] = &c09Set{unlimited: true, m: map[rsT]bool{}}
 		case "parse":
-			delete(sets, t[2]) // set learnt from the next iter
+			// the documented grammar: words separated by white space; a word of exactly three
+			// colon-separated parts is type:resource:action[,action…], any other word is one scope
+			// whose type is the whole word
 			built[t[2]] = "parse"
+			delete(sets, t[2])
+			if len(t) == 4 {
+				if text, ok := untok(t[3]); ok {
+					sets[t[2]] = c09NaiveParse(text)
+				}
+			}
 		case "canonical":
 			sets[t[2]] = get(t[3])
 			if _, ok := sets[t[3]]; !ok {
@@ -526,6 +562,22 @@ func (*c09) Oracle(c Case, impl []string) []Failure {
 			}
 		case "str":
 			strOf[t[2]] = got
+			// the text of a scope is what is sent to a token server: read by the documented grammar
+			// it has to name exactly the scope's members (texts kept verbatim from a parse included)
+			if s, ok := sets[t[2]]; ok && !s.unlimited && c09AllClean(s) {
+				if text, ok := untok(got); ok {
+					ps := c09NaiveParse(text)
+					same := len(ps.m) == len(s.m)
+					for r := range s.m {
+						if !ps.m[r] {
+							same = false
+						}
+					}
+					if !same {
+						fail(i, c09ClassSet("scope-text", s), "text_names_exactly_the_members", "a text that reads back as the same set")
+					}
+				}
+			}
 			if recv, ok := strOf["="+t[2]]; ok {
 				if rs, ok2 := strOf[recv]; ok2 && rs != got {
 					fail(i, "scope-union-noop-text", "union_noop_returns_receiver", rs)
